@@ -306,7 +306,7 @@ func programs(maxLen int) [][]int {
 
 func exploreCase(r *evid.Run, c Case) {
 	var lastW *world
-	states := map[string]struct{}{}
+	states := sched.StateSet{}
 	ex := &sched.Explorer{
 		Mk: func() sched.Scenario {
 			sc, w := mk(c)
